@@ -15,7 +15,7 @@ ID = "C14"
 LEVEL = "model_checking"
 TECHNIQUE = "explicit-state BFS over enter/exit/derive/register-default/run histories on the real Runtime against a stack model, plus exhaustive with-block programs"
 RULE = (
-    "operations: enter(r) for r in {fresh Runtime(), runtime derived elsewhere with T1->hA, derived-from-current via "
+    "operations: enter(r) for r in {fresh Runtime(), runtime derived elsewhere with T1->hA, cache.disabled(), logging.disabled(), derived-from-current via "
     "runtime.handle(T1,hB) / handle({T2:hB}), the currently active runtime (re-entry), an already used runtime}, exit, "
     "exit-by-exception, derive (checks parent table unchanged), register-default(T2) (once), run(T1), run(T2), "
     "re-registration of the T2 default, current-runtime probe; start states: thread without runtime, with "
@@ -75,6 +75,7 @@ class Sys:
         # defaults a runtime may hold as a copy taken when it (or a runtime it derives from) was created
         self.snaps = {id(self.R_other): set(), id(self.R_plain): set(), id(self.R_parent): set()}
         self.base_snap = set()
+        self.base_exists = False  # does the thread have a runtime of its own below the entered blocks?
         self.stack = []  # entered runtime objects (model)
         self.base = None  # model table of the runtime below the stack
         self.fails = []
@@ -100,11 +101,21 @@ class Sys:
         if tname == "T2":
             if self.stack:
                 out |= self.snaps.get(id(self.stack[-1]), set())
-            elif self.start in ("none", "after-dead-inheritor"):
-                out |= self.ever["T2"]  # the thread's own runtime is created on first use, at an unobserved moment
-            else:
+            elif self.base_exists:
                 out |= self.base_snap
         return out or {"TypeError"}
+
+    def _touch(self):
+        """current_runtime() is about to be called: a thread that has no runtime gets a fresh default
+        one now (and only now - leaving a block entered without a runtime leaves the thread without one)."""
+        if not self.stack and not self.base_exists:
+            self.base_exists = True
+            self.base_snap = self._snap_now()
+
+    def _cur_snaps(self):
+        if self.stack:
+            return set(self.snaps.get(id(self.stack[-1]), set()))
+        return set(self.base_snap) if self.base_exists else set()
 
     def _snap_now(self):
         return {self.defaults["T2"]} if "T2" in self.defaults else set()
@@ -115,9 +126,11 @@ class Sys:
         if self.start == "touched":
             rt.current_runtime()
             self.base = {}
+            self.base_exists = True
         elif self.start == "inherit":
             rt.inherit(self.parent_thread)
             self.base = {"T1": "hP"}
+            self.base_exists = True
         else:
             # 'none' and 'after-dead-inheritor': this thread never touched the runtime machinery
             self.base = {}
@@ -126,7 +139,20 @@ class Sys:
         rt = self.rt
         kind = o[0]
         if kind == "enter":
-            r = self.resolve(o[1])
+            if o[1] in ("cachedis", "logdis"):
+                # the library's own context managers: derived from the runtime current when they are created
+                import labrea.cache
+                import labrea.logging
+
+                self._touch()
+                tbl = dict(self.model_current_table())
+                snaps = self._cur_snaps() | self._snap_now()
+                r = labrea.cache.disabled() if o[1] == "cachedis" else labrea.logging.disabled()
+                self.model_tables[id(r)] = tbl
+                self.snaps[id(r)] = snaps
+                self._keep = getattr(self, "_keep", []) + [r]
+            else:
+                r = self.resolve(o[1])
             if r is None:
                 return False
             r.__enter__()
@@ -159,6 +185,7 @@ class Sys:
             if len(self.derived) >= 2:
                 return False
             # module-level handle(): derive from the thread's current runtime
+            self._touch()
             cur_tbl = dict(self.model_current_table())
             if o[1] == "map":
                 new = rt.handle({self.T2: self.hB})
@@ -167,11 +194,7 @@ class Sys:
                 new = rt.handle(self.T1, self.hB)
                 cur_tbl["T1"] = "hB"
             self.model_tables[id(new)] = cur_tbl
-            if self.stack:
-                base = set(self.snaps.get(id(self.stack[-1]), set()))
-            else:
-                base = set(self.ever["T2"]) if self.start in ("none", "after-dead-inheritor") else set(self.base_snap)
-            self.snaps[id(new)] = base | self._snap_now()
+            self.snaps[id(new)] = self._cur_snaps() | self._snap_now()
             self.derived.append(new)
         elif kind == "regdef":
             if "T2" in self.defaults:
@@ -188,6 +211,7 @@ class Sys:
             self.ever["T2"].add("d2b")
         elif kind == "run":
             T = self.T1 if o[1] == "T1" else self.T2
+            self._touch()
             want = self.model_serve(o[1])
             try:
                 got = T().run()
@@ -200,6 +224,7 @@ class Sys:
                 self.fails.append(("wrong-handler", f"{o}: served by {got!r}, model says {sorted(want)!r}"))
         elif kind == "probe":
             # the current runtime must be the top of the stack (identity) when something is entered
+            self._touch()
             try:
                 cur = rt.current_runtime()
             except Exception as e:  # noqa
@@ -258,7 +283,7 @@ class Sys:
             (nm(r), pv(r)) for r in self.stack
         )
         stack = tuple(nm(r) for r in self.stack)
-        return (cur_n, prev, stack, tuple(sorted(self.defaults)), len(self.derived),
+        return (cur_n, prev, stack, tuple(sorted(self.defaults.items())), self.base_exists, tuple(sorted(self.base_snap)), len(self.derived),
                 tuple(tuple(sorted(self.model_tables[id(d)].items())) for d in self.derived))
 
 
@@ -352,7 +377,7 @@ def execute(start, hist):
 
 
 MENU = (
-    [("enter", r) for r in ("fresh", "other", "plain", "cur", "below", "d0", "d1")]
+    [("enter", r) for r in ("fresh", "other", "plain", "cur", "below", "d0", "d1", "cachedis", "logdis")]
     + [("exit",), ("exitx",)]
     + [("derive", "other", "T2"), ("derive", "cur", "T1"), ("derive_cur", "pair"), ("derive_cur", "map")]
     + [("regdef",), ("regdef2",), ("run", "T1"), ("run", "T2"), ("probe",)]
@@ -377,7 +402,7 @@ def cases(tier, seed):
 # -------------------------------------------------------------------------
 # real with-blocks
 
-WITH_POOL = ["fresh", "other", "cur", "dcur"]
+WITH_POOL = ["fresh", "other", "cur", "dcur", "cachedis"]
 WITH_ATOMS = [("run", "T1"), ("run", "T2"), ("regdef",), ("regdef2",), ("probe",)]
 
 
@@ -420,11 +445,22 @@ def run_program(start, prog):
             if it[0] == "with":
                 _, rname, raises, body = it
                 if rname == "dcur":
+                    s._touch()
                     tbl = dict(s.model_current_table())
                     tbl["T1"] = "hB"
                     r = rt.handle(s.T1, s.hB)
                     s.model_tables[id(r)] = tbl
-                    s.snaps[id(r)] = (set(s.snaps.get(id(s.stack[-1]), set())) if s.stack else (set(s.ever["T2"]) if s.start in ("none", "after-dead-inheritor") else set(s.base_snap))) | s._snap_now()
+                    s.snaps[id(r)] = s._cur_snaps() | s._snap_now()
+                elif rname in ("cachedis", "logdis"):
+                    import labrea.cache
+                    import labrea.logging
+
+                    s._touch()
+                    tbl = dict(s.model_current_table())
+                    sn = s._cur_snaps() | s._snap_now()
+                    r = labrea.cache.disabled() if rname == "cachedis" else labrea.logging.disabled()
+                    s.model_tables[id(r)] = tbl
+                    s.snaps[id(r)] = sn
                 elif rname == "cur":
                     r = s.stack[-1] if s.stack else s.R_plain
                 else:
